@@ -9,11 +9,13 @@ in maximally_orient each branch clears exactly the entry that mirrors the argume
 guard it (`rule_k(a, b, P)` => P[b, a] = 0), on a copy, repeated until nothing changes; (COLUMNS)
 chain_graph_IMEC keeps a member iff its parent *columns* at the targets equal A's; (DEPENDS) the results
 depend on I, and with I empty no entry of the CPDAG is touched: dag_to_icpdag(G, {}) = dag_to_cpdag(G);
-the result is returned under `is_consistent_extension(G, P)`.
-Not decided: exactness of the class and of the essential graph (Meek rule semantics, C09).
+the result is returned under `is_consistent_extension(G, P)`; (RULES) rule_1 / rule_2 equal their set-theoretic
+definitions in every Venn world of the two sets involved; rule_3 / rule_4, which quantify over elements, are decided
+role by role (witness sets as set expressions, distinct witnesses, the literal non-adjacency test).
+Not decided: exactness of the class and of the essential graph (soundness / completeness of the rule set, C09).
 """
 from .common import *
-from ..pred import resolve, conj
+from ..pred import resolve, conj, npred, pred_fmt
 
 EXPLANATION = __doc__
 PA_, PG, PI, PP_ = ("param", "A"), ("param", "G"), ("param", "I"), ("param", "P")
@@ -210,6 +212,165 @@ def meek_definitions(rep, prog):
             rep.unk("RULES." + name, fwhere(f), "%s is not a set predicate over %s: %s" % (name, [fmt(a) for a in atoms_], e.why))
 
 
+def quantified_rules(rep, prog):
+    """rule_3 and rule_4 quantify over elements; decided role by role against their definitions (Meek 1995, restated in the
+    source comments).  rule_3(i, j): two distinct, non-adjacent members k, l of n(i) & pa(j).  rule_4(i, j): some h in n(i) that is
+    a parent of some k in pa(j) & n(i), h not adjacent to j.  The sets are compared as set expressions (Venn regions), the
+    membership / adjacency tests literally; redundant emptiness guards are accepted, anything else is not decided."""
+    from ..setpred import SetAlg
+    from ..sym import CLOSURES
+    I_, J_, A_ = ("param", "i"), ("param", "j"), ("param", "A")
+
+    def c(name, node):
+        return ("call", U + name, (node, A_), (("A", A_), ("i", node)))
+    NI, PJ = c("neighbors", I_), c("pa", J_)
+
+    def same_set(alg, t, spec):
+        try:
+            return alg.sets(t) == alg.sets(spec)
+        except Inconclusive:
+            return False
+
+    def not_in(term, pol):
+        """(x, S) when the condition under polarity `pol` says x not in S"""
+        if term[0] == "unop" and term[1] == "not":
+            return not_in(term[2], not pol)
+        if term[0] == "cmp" and term[1] in ("not in", "in"):
+            neg = (term[1] == "not in") == pol
+            return (term[2], term[3]) if neg else None
+        return None
+
+    def flat_path(path):
+        out = []
+        for cnd, pol in path:
+            if cnd[0] == "bool" and ((cnd[1] == "and" and pol is True) or (cnd[1] == "or" and pol is False)):
+                out.extend(flat_path([(x, pol) for x in cnd[2]]))
+            else:
+                out.append((cnd, pol))
+        return out
+
+    def harmless(cnd, pol, sets_, alg):
+        """an emptiness / size guard implied by the existence of the witnesses"""
+        n_ = npred(cnd, pol)
+        if n_[0] == "nonempty":
+            return any(same_set(alg, n_[1], s_) for s_ in sets_)
+        if cnd[0] == "cmp" and cnd[2][0] == "ext" and cnd[2][1] == "len" and is_const(cnd[3]) and pol is True:
+            return any(same_set(alg, cnd[2][2][0], s_) for s_ in sets_[:1]) and (cnd[1], cnd[3][1]) in ((">=", 2), (">", 1), (">=", 1), (">", 0), ("!=", 0))
+        return False
+    # ------------------------------------------------------------------ rule_3
+    f = need(prog, U + "rule_3")
+    S = Sym(prog)
+    run_function(S, f)
+    rets = S.select("return", qname=f.qname)
+    trues = [r for r in rets if is_const(r.value, True)]
+    falses = [r for r in rets if is_const(r.value, False)]
+    alg = SetAlg([NI, PJ])
+    X = ("binop", "&", NI, PJ)
+    ok, why = False, "expected one `return True` inside the search and a final `return False`"
+    undecided = None
+    if len(trues) == 1 and len(falses) == 1 and len(rets) == 2 and not falses[0].path:
+        r = trues[0]
+        loops = [S.loopinfo[l] for l in r.loops if l in S.loopinfo]
+        k = l = None
+        if len(loops) == 2:
+            k, l = ("elem", loops[0]["iter"]), ("elem", loops[1]["iter"])
+            it0, it1 = loops[0]["iter"], loops[1]["iter"]
+            distinct = it1[0] == "binop" and it1[1] == "-" and same_set(alg, it1[2], X) and it1[3] in (("set", (k,)),)
+            both = same_set(alg, it0, X) and (distinct or same_set(alg, it1, X))
+        elif len(loops) == 1 and loops[0]["iter"][0] == "ext" and loops[0]["iter"][1] in ("itertools.combinations", "itertools.permutations") \
+                and len(loops[0]["iter"][2]) == 2 and is_const(loops[0]["iter"][2][1], 2):
+            e = ("elem", loops[0]["iter"])
+            k, l = ("sub", e, ("const", 0)), ("sub", e, ("const", 1))
+            distinct = True
+            both = same_set(alg, loops[0]["iter"][2][0], X)
+        else:
+            both = distinct = False
+        if k is not None:
+            test_ok = False
+            rest = []
+            for cnd, pol in flat_path(r.path):
+                ni = not_in(cnd, pol)
+                if ni is not None and ni in ((k, c("adj", l)), (l, c("adj", k))):
+                    test_ok = True
+                elif npred(cnd, pol) in (npred(("cmp", "!=", k, l), True), npred(("cmp", "!=", l, k), True)):
+                    distinct = True
+                elif not harmless(cnd, pol, [X], alg):
+                    rest.append((cnd, pol))
+            if rest:
+                undecided = "further condition %s on the path to `return True`" % pred_fmt(npred(*rest[0]))[:80]
+            ok = both and distinct and test_ok
+            why = "witnesses from n(i) & pa(j): %s; distinct: %s; non-adjacency test k not in adj(l): %s" % (both, distinct, test_ok)
+    if undecided and ok:
+        rep.unk("RULES.rule_3", fwhere(f), "rule_3: " + undecided)
+    else:
+        rep.check("RULES.rule_3", ok, fwhere(f, trues[0].node if trues else None), "rule_3(i, j, A) <=> two distinct non-adjacent k, l in neighbors(i) & pa(j)",
+                  "rule_3 deviates from its definition: " + why)
+    # ------------------------------------------------------------------ rule_4
+    f = need(prog, U + "rule_4")
+    S = Sym(prog)
+    run_function(S, f)
+    rets = S.select("return", qname=f.qname)
+    trues = [r for r in rets if is_const(r.value, True)]
+    falses = [r for r in rets if is_const(r.value, False)]
+    KS = ("binop", "&", PJ, NI)
+    ok, why, undecided = False, "expected one `return True` inside the search and a final `return False`", None
+    if len(trues) == 1 and len(falses) == 1 and len(rets) == 2 and not falses[0].path:
+        r = trues[0]
+        loops = [S.loopinfo[l] for l in r.loops if l in S.loopinfo]
+        if len(loops) == 1:
+            it = loops[0]["iter"]
+            h = ("elem", it)
+            # the union of the parents of the members of Ks, in the spellings the engine can read
+            unions = []
+            wrong_union = None
+            for x in walk(it):
+                if isinstance(x, tuple) and x and x[0] == "ext" and x[1] == "functools.reduce" and len(x[2]) == 3 and x[2][0][0] == "closure" and x[2][2] in (("ext", "set", (), ()), ("set", ())):
+                    clo = CLOSURES.get((x[2][0][1], x[2][0][2]))
+                    if clo is not None:
+                        try:
+                            body = T(S.call_closure(clo, [("$acc",), ("$k",)], {}, clo.node, {}, S.module_ctx(f.module)))
+                        except Inconclusive:
+                            body = None
+                        if body in (("binop", "|", ("$acc",), c("pa", ("$k",))), ("binop", "|", c("pa", ("$k",)), ("$acc",)), ("method", ("$acc",), "union", (c("pa", ("$k",)),), ())):
+                            unions.append((x, x[2][1]))
+                        elif body is not None:
+                            wrong_union = body
+                if isinstance(x, tuple) and x and x[0] == "comp" and len(x) >= 3:
+                    pass
+            okU = len(unions) == 1 and same_set(alg, unions[0][1], KS)
+            if okU:
+                Usym = ("UNION-PA-KS",)
+                from ..sym import subst
+                it2 = subst(it, {("ext", "set", (unions[0][0],), ()): Usym})
+                it2 = subst(it2, {unions[0][0]: Usym})
+                alg4 = SetAlg([NI, Usym])
+                okH = same_set(alg4, it2, ("binop", "&", NI, Usym))
+            else:
+                okH = False
+            test_ok = False
+            rest = []
+            for cnd, pol in flat_path(r.path):
+                ni = not_in(cnd, pol)
+                if ni is not None and ni in ((h, c("adj", J_)), (J_, c("adj", h))):
+                    test_ok = True
+                elif not (harmless(cnd, pol, [KS], alg) or npred(cnd, pol) == ("nonempty", it)):
+                    rest.append((cnd, pol))
+            if rest:
+                undecided = "further condition %s on the path to `return True`" % pred_fmt(npred(*rest[0]))[:80]
+            ok = okU and okH and test_ok
+            why = "Ks = pa(j) & n(i) feeding the union of parents: %s; h ranges over n(i) & that union: %s; test h not in adj(j): %s" % (okU, okH, test_ok)
+            if wrong_union is not None and not unions:
+                ok, why = False, "the set h is taken from accumulates %s for k in Ks, not pa(k)" % fmt(wrong_union)[:60]
+            elif not unions:
+                undecided = undecided or "the union of the parents of Ks is not spelled as reduce(lambda acc, k: acc | pa(k, A), Ks, set())"
+                ok = True
+    if undecided and ok:
+        rep.unk("RULES.rule_4", fwhere(f), "rule_4: " + undecided)
+    else:
+        rep.check("RULES.rule_4", ok, fwhere(f, trues[0].node if trues else None), "rule_4(i, j, A) <=> some h in neighbors(i), parent of some k in pa(j) & neighbors(i), with h not adjacent to j",
+                  "rule_4 deviates from its definition: " + why)
+
+
 def pdag_rules(rep, prog):
     q = U + "pdag_to_icpdag"
     f = need(prog, q)
@@ -236,6 +397,7 @@ def run(prog, rep, tier):
     icpdag_rules(rep, prog)
     meek_rules(rep, prog)
     meek_definitions(rep, prog)
+    quantified_rules(rep, prog)
     pdag_rules(rep, prog)
     rep.require_count("ORIENT", 5)
     rep.require_count("GUARD", 3)
